@@ -1,6 +1,7 @@
 pub mod c01;
 pub mod c02;
 pub mod c13;
+pub mod c14;
 pub mod mpc_common;
 
 use crate::ctx::Ctx;
@@ -10,6 +11,7 @@ pub fn dispatch(ctx: &mut Ctx) -> bool {
         "C01" => c01::run(ctx),
         "C02" => c02::run(ctx),
         "C13" => c13::run(ctx),
+        "C14" => c14::run(ctx),
         _ => return false,
     }
     true
